@@ -16,6 +16,7 @@ package main
 import (
 	"context"
 	"fmt"
+	"math/big"
 	"net/http"
 	"net/http/httptest"
 	"os"
@@ -659,6 +660,13 @@ type winCase struct {
 	// the boundary; then the held one goes on — a call that reaches the entry with a clock reading older than
 	// the entry's window
 	Stale bool `json:",omitempty"`
+	// Atomic: the Store handed to the limiter also implements ratelimit.AtomicWindowStore (like the in-memory
+	// store itself): a request is counted and told the counts in ONE store call (released by its G step; its I
+	// step is only the point at which the response is awaited). Without it the wrapper only has GetCounts/Incr.
+	Atomic bool `json:",omitempty"`
+	// Burst: G requests released together on the REAL in-memory store (no wrapper, real contention on the entry
+	// lock); the responses are sorted into the order the store served them (by the count each one saw)
+	Burst        int  `json:",omitempty"`
 	NoiseW       int  `json:",omitempty"`
 	NoiseLimit   int  `json:",omitempty"`
 	Reqs                       []winReq
@@ -710,6 +718,47 @@ func (s *schedStore) Incr(ctx context.Context, key string, w time.Duration) erro
 	err := s.inner.Incr(ctx, key, w)
 	close(s.done[op])
 	return err
+}
+
+// atomicSchedStore adds the optional one-call interface (ratelimit.AtomicWindowStore) to schedStore.
+type atomicSchedStore struct{ *schedStore }
+
+func (s atomicSchedStore) IncrAndGetCounts(ctx context.Context, key string, w time.Duration) (int, int, int64, error) {
+	i := ctx.Value(ctxKey{}).(int)
+	if i < 0 { // noise request: the store fails
+		return 0, 0, 0, errStore
+	}
+	op := opT{true, i}
+	<-s.turn[op]
+	c, p, ws, err := s.inner.IncrAndGetCounts(ctx, key, w)
+	t := time.Now()
+	s.mu.Lock()
+	s.got[i] = [3]int64{int64(c), int64(p), ws}
+	s.tG[i] = t
+	s.mu.Unlock()
+	close(s.done[op])
+	return c, p, ws, err
+}
+
+// retryAfterRef: the Retry-After a rejected request is given, as a function of the counts its store call
+// reported and of the instant t (ns) the middleware read — used ONLY for the timing validation (a case whose
+// value depends on where between its two stamps the clock was read is discarded, never failed).
+func retryAfterRef(curr, prev, ws int64, limit int, Wns, t int64) int64 {
+	e := max(min(t-ws*1e9, Wns), 0)
+	counted, L := curr+1, int64(limit)
+	var wait int64
+	switch {
+	case L <= 0:
+		wait = 2*Wns - e
+	case counted < L && prev > 0:
+		num := max(prev-(L-counted), 0)
+		wait = new(big.Int).Div(new(big.Int).Mul(big.NewInt(Wns), big.NewInt(num)), big.NewInt(prev)).Int64() - e
+	case counted < L:
+		wait = 0
+	default:
+		wait = Wns - e + new(big.Int).Div(new(big.Int).Mul(big.NewInt(Wns), big.NewInt(counted-L)), big.NewInt(counted)).Int64()
+	}
+	return max(wait, 0)/1e9 + 1
 }
 
 func serialSched(n int) []opT {
@@ -796,7 +845,13 @@ func (w *winCase) runDefault(id string) (line string, discard string, nontrivial
 			return "", "W.discarded_second_changed_during_request", false, false
 		}
 	}
-	l := hx.NewLine(id).Tok("W").Nat(w.Limit).Nat(w.W).Bool(w.Headers).Bool(w.Enforce).Bool(w.Callback).Nat(len(rows))
+	for i, row := range rows { // fresh key, one window: the i-th judged request sees (curr = i, prev = 0)
+		ws := time.Unix(0, row.t0).Truncate(window).Unix()
+		if retryAfterRef(int64(i), 0, ws, w.Limit, int64(window), row.t0) != retryAfterRef(int64(i), 0, ws, w.Limit, int64(window), row.t1) {
+			return "", "W.discarded_retry_after_changed_during_request", false, false
+		}
+	}
+	l := hx.NewLine(id).Tok("W").Nat(w.Limit).Nat(w.W).Bool(w.Headers).Bool(w.Enforce).Bool(w.Callback).Bool(true).Nat(len(rows))
 	for _, row := range rows {
 		l.Str(key).I64(row.t0)
 	}
@@ -823,6 +878,113 @@ func (w *winCase) runDefault(id string) (line string, discard string, nontrivial
 	return l.String(), "", true, false
 }
 
+var burstSeq struct {
+	sync.Mutex
+	n int
+}
+
+// runBurst: w.Burst requests for one fresh key released together on the real in-memory store (explicit, or — with
+// DefaultStore — the one the limiter creates for itself): real contention on the entry lock, no wrapper. The window
+// is an hour and the key is fresh, so the i-th call the store serves sees (curr = i, prev = 0): the responses are
+// sorted into that order by the count they report (RateLimit-Remaining, then Retry-After, which grows with the
+// count) and emitted as a W case over an atomic store. Kept only if every request stayed within one second.
+func (w *winCase) runBurst(id string) (line string, discard string, nontrivial bool, raced bool) {
+	burstSeq.Lock()
+	burstSeq.n++
+	key := fmt.Sprintf("burst-%d-%d", os.Getpid(), burstSeq.n)
+	burstSeq.Unlock()
+	window := time.Duration(w.W) * time.Second
+	Wns := int64(window)
+	sw := ratelimit.SlidingWindow{Window: window, Limit: w.Limit}
+	if !w.DefaultStore {
+		sw.Store = ratelimit.NewInMemoryStore()
+	}
+	type ranK struct{}
+	r := router.MustNew()
+	r.Use(ratelimit.WithSlidingWindow(sw, commonOpts(true, true, false)))
+	anyMethod(r, func(c *router.Context) { *(c.Request.Context().Value(ranK{}).(*bool)) = true })
+	type rowT struct {
+		t0, t1 int64
+		m      mwObs
+		p      bool
+	}
+	rows := make([]rowT, w.Burst)
+	start := make(chan struct{})
+	var wg sync.WaitGroup
+	for i := range rows {
+		wg.Add(1)
+		go func(i int) {
+			defer wg.Done()
+			ran := false
+			ctx := context.WithValue(context.WithValue(context.Background(), ranK{}, &ran), methodCtx{}, w.Method)
+			<-start
+			rows[i].t0 = time.Now().UnixNano()
+			rows[i].p = guard(func() { rows[i].m, _ = serveOnce(r, key, ctx) })
+			rows[i].m.Ran = ran
+			rows[i].t1 = time.Now().UnixNano()
+		}(i)
+	}
+	close(start)
+	wg.Wait()
+	tmin, tmax := rows[0].t0, rows[0].t1
+	panicked := false
+	for _, row := range rows {
+		tmin, tmax = min(tmin, row.t0), max(tmax, row.t1)
+		panicked = panicked || row.p
+	}
+	if tmin/1e9 != tmax/1e9 || !time.Unix(0, tmin).Truncate(window).Equal(time.Unix(0, tmax).Truncate(window)) {
+		return "", "W.discarded_second_changed_during_request", false, false
+	}
+	ws := time.Unix(0, tmin).Truncate(window).Unix()
+	for i := range rows {
+		if retryAfterRef(int64(i), 0, ws, w.Limit, Wns, tmin) != retryAfterRef(int64(i), 0, ws, w.Limit, Wns, tmax) {
+			return "", "W.discarded_retry_after_changed_during_request", false, false
+		}
+	}
+	num := func(v []string) int {
+		n, err := strconv.Atoi(first(v))
+		if err != nil {
+			return -1
+		}
+		return n
+	}
+	sort.SliceStable(rows, func(a, b int) bool {
+		ra, rb := num(rows[a].m.Remaining), num(rows[b].m.Remaining)
+		if ra != rb {
+			return ra > rb
+		}
+		if rows[a].m.Ran != rows[b].m.Ran {
+			return rows[a].m.Ran
+		}
+		return num(rows[a].m.RetryAfter) < num(rows[b].m.RetryAfter)
+	})
+	l := hx.NewLine(id).Tok("W").Nat(w.Limit).Nat(w.W).Bool(true).Bool(true).Bool(false).Bool(true).Nat(len(rows))
+	for range rows {
+		l.Str(key).I64(tmin)
+	}
+	ser := serialSched(len(rows))
+	l.Nat(len(ser))
+	for _, op := range ser {
+		if op.G {
+			l.Tok("G")
+		} else {
+			l.Tok("I")
+		}
+		l.Nat(op.I)
+	}
+	l.Nat(0).Sep()
+	if panicked {
+		l.Tok("P")
+	} else {
+		l.Nat(len(rows))
+		for i, row := range rows {
+			l.Nat(i)
+			row.m.tokens(l)
+		}
+	}
+	return l.String(), "", w.Burst > w.Limit, false
+}
+
 var staleSeq struct {
 	sync.Mutex
 	n     int
@@ -839,7 +1001,7 @@ func (w *winCase) runStale(id string) (line string, discard string, nontrivial b
 	staleSeq.once.Do(func() {
 		staleSeq.armed, staleSeq.hit = map[string]chan struct{}{}, map[string]chan struct{}{}
 		ratelimit.VerifSetYield(func(point, key string) {
-			if point != "window.getcounts.clock" {
+			if point != "window.incrandgetcounts.clock" {
 				return
 			}
 			staleSeq.Lock()
@@ -914,7 +1076,7 @@ func (w *winCase) runStale(id string) (line string, discard string, nontrivial b
 	}
 	n := len(rows)
 	all := append(append([]rowT(nil), rows...), stale, fresh) // indices: 0..n-1 sequential, n stale, n+1 fresh
-	l := hx.NewLine(id).Tok("W").Nat(w.Limit).Nat(1).Bool(true).Bool(true).Bool(false).Nat(len(all))
+	l := hx.NewLine(id).Tok("W").Nat(w.Limit).Nat(1).Bool(true).Bool(true).Bool(false).Bool(true).Nat(len(all))
 	for _, row := range all {
 		l.Str(key).I64(row.t0)
 	}
@@ -986,6 +1148,9 @@ func genWinDefault(r *hx.Rand) *winCase {
 }
 
 func (w *winCase) run(id string) (line string, discard string, nontrivial bool, raced bool) {
+	if w.Burst > 0 {
+		return w.runBurst(id)
+	}
 	if w.DefaultStore {
 		return w.runDefault(id)
 	}
@@ -1004,7 +1169,11 @@ func (w *winCase) run(id string) (line string, discard string, nontrivial bool, 
 	}
 	ran := make([]bool, n)
 	r := router.MustNew()
-	r.Use(ratelimit.WithSlidingWindow(ratelimit.SlidingWindow{Window: window, Limit: w.Limit, Store: ss},
+	var theStore ratelimit.WindowStore = ss
+	if w.Atomic {
+		theStore = atomicSchedStore{ss}
+	}
+	r.Use(ratelimit.WithSlidingWindow(ratelimit.SlidingWindow{Window: window, Limit: w.Limit, Store: theStore},
 		commonOpts(w.Headers, w.Enforce, w.Callback)))
 	anyMethod(r, func(c *router.Context) {
 		if i := c.Request.Context().Value(ctxKey{}).(int); i >= 0 {
@@ -1102,6 +1271,9 @@ func (w *winCase) run(id string) (line string, discard string, nontrivial bool, 
 		if t0/1e9 != tg/1e9 {
 			return "", "W.discarded_second_changed_during_request", false, false
 		}
+		if _, reached := ss.tG[i]; reached && retryAfterRef(g[0], g[1], g[2], w.Limit, Wns, t0) != retryAfterRef(g[0], g[1], g[2], w.Limit, Wns, tg) {
+			return "", "W.discarded_retry_after_changed_during_request", false, false
+		}
 		if g[1] > 0 {
 			num := func(t int64) int64 {
 				e := min(t-g[2]*1e9, Wns)
@@ -1115,7 +1287,16 @@ func (w *winCase) run(id string) (line string, discard string, nontrivial bool, 
 			nontrivial = true
 		}
 	}
-	l := hx.NewLine(id).Tok("W").Nat(w.Limit).Nat(w.W).Bool(w.Headers).Bool(w.Enforce).Bool(w.Callback).Nat(n)
+	if w.Atomic {
+		// the verdict of a request is fixed by its (single) store call: answers in the order of the G steps
+		order = order[:0]
+		for _, op := range w.Sched {
+			if op.G {
+				order = append(order, op.I)
+			}
+		}
+	}
+	l := hx.NewLine(id).Tok("W").Nat(w.Limit).Nat(w.W).Bool(w.Headers).Bool(w.Enforce).Bool(w.Callback).Bool(w.Atomic).Nat(n)
 	for _, q := range w.Reqs {
 		l.Str(q.Key).I64(q.now)
 	}
@@ -1128,7 +1309,7 @@ func (w *winCase) run(id string) (line string, discard string, nontrivial bool, 
 			l.Tok("I")
 		}
 		l.Nat(op.I)
-		if k >= len(ser) || ser[k] != op {
+		if (k >= len(ser) || ser[k] != op) && !w.Atomic {
 			raced = true
 		}
 	}
@@ -1166,6 +1347,7 @@ func genWin(r *hx.Rand, rolling bool) *winCase {
 	hx.Shuffle(r, kp)
 	keys := kp[:r.Range(1, 2)]
 	w.Method = pickMethod(r)
+	w.Atomic = r.Chance(1, 2) // half of the scheduled cases hand the limiter a store with the one-call interface
 	if !rolling {
 		// window lengths that do and do not divide 24 h (time.Truncate counts from Go's zero time)
 		w.W = hx.Pick(r, []int{3600, 3600, 420, 604800, 7, 11, 35 * 60})
@@ -1401,10 +1583,13 @@ func fixedCases() []*caseT {
 		// K16b race: limit 1, both requests read the count before either increments it
 		{Kind: "W", Win: &winCase{Limit: 1, W: 3600, Headers: true, Enforce: true, Reqs: []winReq{{Key: "a"}, {Key: "a"}},
 			Sched: []opT{{true, 0}, {true, 1}, {false, 0}, {false, 1}}}},
+		// the same two requests, same schedule, over a store with the one-call interface (K16b as repaired): 200, 429
+		{Kind: "W", Win: &winCase{Limit: 1, W: 3600, Headers: true, Enforce: true, Atomic: true, Reqs: []winReq{{Key: "a"}, {Key: "a"}},
+			Sched: []opT{{true, 0}, {true, 1}, {false, 0}, {false, 1}}}},
 		// the same two requests serially: the second is rejected
 		{Kind: "W", Win: &winCase{Limit: 1, W: 3600, Headers: true, Enforce: true, Reqs: []winReq{{Key: "a"}, {Key: "a"}},
 			Sched: serialSched(2)}},
-		// K16b truthfulness: limit 2, window 2 s: three requests, the 429 says Retry-After ≤ 2; the retry is rejected again
+		// K16b truthfulness: limit 2, window 2 s: three requests; as shipped the 429 said Retry-After ≤ 2 and the retry was rejected again; repaired: Retry-After 3, the retry is admitted
 		{Kind: "W", Win: &winCase{Limit: 2, W: 2, Headers: true, Enforce: true,
 			Reqs:  []winReq{{Key: "a", SleepToNextWindow: true, OffsetMs: 100}, {Key: "a"}, {Key: "a"}, {Key: "a", RetryOf: 3}},
 			Sched: serialSched(4)}},
@@ -1601,6 +1786,27 @@ func main() {
 			if adm != min(burst, G) {
 				st.Count("K.cold_start_admitted_fewer_than_burst")
 			}
+		}
+		// ---- bursts of simultaneous requests on the real in-memory window store (atomic count-and-report)
+		nBurst := 400
+		if a.Tier == "thorough" {
+			nBurst = 1500
+		}
+		if a.N < 200 {
+			nBurst = 0
+		}
+		for i := 0; i < nBurst; i++ {
+			k := &caseT{Kind: "W", Win: &winCase{Limit: hx.Pick(r, []int{1, 1, 2, 3, 5}), W: 3600, Headers: true, Enforce: true,
+				Burst: hx.Pick(r, []int{2, 4, 8, 16}), DefaultStore: i%2 == 0, Method: pickMethod(r)}}
+			line, disc, nt, _ := k.Win.run(fmt.Sprintf("c16-%d-burst-%d", a.Seed, i))
+			if disc != "" {
+				st.Count(disc)
+				continue
+			}
+			fmt.Fprintln(w, line+hx.Comment(k))
+			st.Case(fmt.Sprintf("burst %d %d %v %s", k.Win.Limit, k.Win.Burst, k.Win.DefaultStore, k.Win.Method), nt)
+			st.Count("W.cases")
+			st.Count("W.burst_of_simultaneous_requests_on_the_in_memory_store")
 		}
 		// ---- ratelimit.New with small cleanup interval / TTL, drained, idle past TTL + 2 ticks, back again
 		nIdle := 12
